@@ -116,7 +116,7 @@ SIMSRC2 = SIMSRC + ['sim/monitors.cc']
 PROPS['C01'] = dict(
     bin='c01', sources=['props/c01.cc'] + SIMSRC2, unit_objs=UNIT, images=IMGS, engine='rc',
     quick=dict(workers=8, cases=2500, budget=40, min_nontrivial=50),
-    thorough=dict(workers=16, cases=40000, budget=1200, min_nontrivial=5000),
+    thorough=dict(workers=16, cases=40000, budget=1200, min_nontrivial=2000),
     rule='case = (configuration: query type incl. autodetect, forced/auto downstream codec, forced/auto fragment size 2..1300, '
          '-M 100..255, lazy, raw mode, 1..3 real clients, tunnel domain, wildcard server domain, netmask, IPv4/IPv6 transport) + '
          '(1..30 timed packet offers on server/client tun devices: to the peer, to another client, to nobody; 0..1400 (14/17), 0..3800 (2/17), 0..6000 (1/17) byte '
@@ -137,8 +137,8 @@ PROPS['C01'] = dict(
 )
 PROPS['C02'] = dict(
     bin='c02', sources=['props/c02.cc'] + SIMSRC2, unit_objs=UNIT, images=IMGS, engine='rc',
-    quick=dict(workers=8, cases=2000, budget=40, min_nontrivial=40),
-    thorough=dict(workers=16, cases=30000, budget=1200, min_nontrivial=3000),
+    quick=dict(workers=8, cases=2000, budget=40, min_nontrivial=25),
+    thorough=dict(workers=16, cases=30000, budget=1200, min_nontrivial=1000),
     rule='case = configuration as in C01 (one client; forced fragment sizes limited to what the answer format carries) + '
          'either (a) clean path, 1..40 offers with bursts and idle gaps up to 30 s (one case in four: one direction only, a packet every 2..15 s for up to several minutes): every accepted packet that fits 12 '
          'fragments (conservative capacity) must be written at the peer exactly once, in order, within 5 virtual s; or '
@@ -182,7 +182,7 @@ SES_RULE = ('case = real iodined (query type NULL/PRIVATE/TXT/SRV/MX/CNAME/A, tu
             're-delivery of an earlier query, time step from {0,5,19,21,100 ms,1,3,10 s}; then a drain of honest pings. ')
 PROPS['C15'] = dict(
     bin='c15', sources=['props/c15.cc'] + SIMSRC2, unit_objs=UNIT, images=IMGS, engine='rc',
-    quick=dict(workers=8, cases=4000, budget=40, min_nontrivial=100),
+    quick=dict(workers=8, cases=4000, budget=40, min_nontrivial=50),
     thorough=dict(workers=16, cases=80000, budget=1200, min_nontrivial=5000),
     rule=SES_RULE + 'C15 mix: fragment sizes from {0,1,2,3,50,100,101,255,1200,4093..4096,65535,random 16-bit}, packets up to 20000 bytes, '
          'acknowledgement games, up to two expiries (silent 61-76 s) followed by a new login into the same slot, half of them without an N request. Oracle: every data answer carries <= F_current bytes after the 2-byte header (100 before any accepted size); '
@@ -195,7 +195,7 @@ PROPS['C15'] = dict(
 )
 PROPS['C14'] = dict(
     bin='c14', sources=['props/c14.cc'] + SIMSRC2, unit_objs=UNIT, images=IMGS, engine='rc',
-    quick=dict(workers=8, cases=4000, budget=40, min_nontrivial=100),
+    quick=dict(workers=8, cases=4000, budget=40, min_nontrivial=50),
     thorough=dict(workers=16, cases=80000, budget=1200, min_nontrivial=5000),
     rule=SES_RULE + 'C14 mix: 1..3 sessions, duplicates of pending and answered queries with new ids / from other relay addresses, upstream packets addressed to another session (1 in 3 with several sessions), wildcard server domain (1 in 3) with re-deliveries of the same payload under another sub-domain, ping-shaped DNS responses (QR=1) that must not be answered. Oracle '
          '(credit accounting): every query the server read that parses (strict RFC 1035 parser) adds one credit (source, id, name, type); every '
@@ -207,7 +207,7 @@ PROPS['C14'] = dict(
 )
 PROPS['C16'] = dict(
     bin='c16', sources=['props/c16.cc'] + SIMSRC2, unit_objs=UNIT, images=IMGS, engine='rc',
-    quick=dict(workers=8, cases=4000, budget=40, min_nontrivial=100),
+    quick=dict(workers=8, cases=4000, budget=40, min_nontrivial=50),
     thorough=dict(workers=16, cases=80000, budget=1200, min_nontrivial=5000),
     rule=SES_RULE + 'C16 mix: re-deliveries chosen from the windows the property names (4 most recently answered; last 15 data / 30 ping; '
          'pending), 1..3 times, same or new id, same or other relay address, optional case change (Base32 names only). Oracles: upstream packets '
